@@ -165,6 +165,13 @@ func boundCandidates(f *ssa.Function) []boundCand {
 			if _, isPtr := x.X.Type().Underlying().(*types.Pointer); isPtr {
 				return // array: bounds are static or checked by the compiler against a static length
 			}
+			// variable bounds: High <= len(X) and Low <= High must follow from a dominating comparison (linear
+			// reasoning over lengths and offsets), from the reader contract (n of Read(buf) <= len(buf)), or from
+			// the bound being a length itself
+			if vb := variableBound(f, x); vb != nil {
+				out = append(out, *vb)
+				return
+			}
 			var k int64 = -1
 			for _, b := range []ssa.Value{x.High, x.Low, x.Max} {
 				if b == nil {
@@ -360,3 +367,144 @@ func boundConst(v ssa.Value) (int64, bool) {
 
 // allRepoFuncs is set once per run (main) so that value helpers can see every function of the repository.
 var allRepoFuncs []*ssa.Function
+
+// variableBound decides a slice expression with a non-constant bound; nil if both bounds are constant / absent.
+func variableBound(f *ssa.Function, x *ssa.Slice) *boundCand {
+	nonConst := func(v ssa.Value) bool {
+		if v == nil {
+			return false
+		}
+		_, ok := boundConst(v)
+		return !ok
+	}
+	if !nonConst(x.High) && !nonConst(x.Low) {
+		return nil
+	}
+	xp := pathOf(x.X)
+	construct := firstN(xp, 40) + "[" + firstN(pathOfOrEmpty(x.Low), 30) + ":" + firstN(pathOfOrEmpty(x.High), 30) + "]"
+	guards := guardsLE(f, x)
+	lenX := lenOf(x.X, 0)
+	contract := func(v ssa.Value) bool {
+		// n, _ := r.Read(buf) / io.ReadFull(r, buf) / copy(buf, ...) with buf == X
+		ex, ok := stripConv(v).(*ssa.Extract)
+		var call *ssa.Call
+		if ok && ex.Index == 0 {
+			call, _ = ex.Tuple.(*ssa.Call)
+		} else if c, ok := stripConv(v).(*ssa.Call); ok {
+			call = c
+		}
+		if call == nil {
+			return false
+		}
+		n := calleeShort(&call.Call)
+		switch n {
+		case "Read", "ReadFull", "ReadAtLeast", "ReadFrom", "ReadFromUDP", "ReadMsgUDP", "copy", "Write", "Encode", "Decode", "Recv", "RecvBytes":
+			for _, a := range call.Call.Args {
+				if pathOf(a) == xp || a == x.X {
+					return true
+				}
+				if sl, ok := a.(*ssa.Slice); ok && (pathOf(sl.X) == xp || sl.X == x.X) && sl.High == nil {
+					return true
+				}
+			}
+		}
+		return false
+	}
+	// min(a, b), math.Min(float64(a), float64(b)) and e / k: bounded by (one of) their operands
+	var boundedBy func(v ssa.Value, d int) []ssa.Value
+	boundedBy = func(v ssa.Value, d int) []ssa.Value {
+		if d > 4 {
+			return nil
+		}
+		switch y := v.(type) {
+		case *ssa.Convert:
+			return boundedBy(y.X, d+1)
+		case *ssa.Call:
+			n := calleeName(&y.Call)
+			if b, ok := y.Call.Value.(*ssa.Builtin); ok && b.Name() == "min" {
+				return y.Call.Args
+			}
+			if n == "math.Min" || (strings.HasSuffix(n, ".min") && len(y.Call.Args) == 2) {
+				var out []ssa.Value
+				for _, a := range y.Call.Args {
+					for {
+						if cv, ok := a.(*ssa.Convert); ok {
+							a = cv.X
+							continue
+						}
+						break
+					}
+					out = append(out, a)
+				}
+				return out
+			}
+		case *ssa.BinOp:
+			if y.Op == token.QUO || y.Op == token.SHR {
+				if cv, ok := constOf(y.Y); ok {
+					if k, ok := constant.Int64Val(constant.ToInt(cv)); ok && k >= 1 {
+						return []ssa.Value{y.X}
+					}
+				}
+			}
+		}
+		return nil
+	}
+	viaOperand := func(v ssa.Value, upper linTerm) bool {
+		for _, o := range boundedBy(v, 0) {
+			if provenLE(linOf(o, 0).sub(upper), guards) {
+				return true
+			}
+		}
+		return false
+	}
+	why := ""
+	okAll := true
+	if x.High != nil {
+		t := linOf(x.High, 0).sub(lenX)
+		switch {
+		case provenLE(t, guards):
+		case contract(x.High):
+		case viaOperand(x.High, lenX):
+		default:
+			okAll = false
+			why = "no dominating comparison establishes " + firstN(pathOf(x.High), 40) + " <= len(" + firstN(xp, 30) + ")"
+		}
+	}
+	if okAll && x.Low != nil && nonConst(x.Low) {
+		upper := lenX
+		if x.High != nil {
+			upper = linOf(x.High, 0)
+		}
+		t := linOf(x.Low, 0).sub(upper)
+		if !provenLE(t, guards) && !contract(x.Low) && !viaOperand(x.Low, upper) {
+			okAll = false
+			why = "no dominating comparison establishes " + firstN(pathOf(x.Low), 40) + " <= the upper bound"
+		}
+		// and the lower bound is not negative: parameters / fields / unsigned values are taken as offsets >= 0,
+		// a difference must be proven
+		if okAll {
+			lt := linOf(x.Low, 0)
+			hasNeg := false
+			for _, v := range lt.coef {
+				if v < 0 {
+					hasNeg = true
+				}
+			}
+			if hasNeg && !provenLE(linConst(0).sub(lt), guards) {
+				okAll = false
+				why = "no dominating comparison establishes " + firstN(pathOf(x.Low), 40) + " >= 0"
+			}
+		}
+	}
+	if okAll {
+		return &boundCand{x, construct, true, "variable bound proven from a dominating comparison / reader contract"}
+	}
+	return &boundCand{x, construct, false, "bounded (" + why + ")"}
+}
+
+func pathOfOrEmpty(v ssa.Value) string {
+	if v == nil {
+		return ""
+	}
+	return pathOf(v)
+}
